@@ -75,6 +75,42 @@ fn hist<W: WorldDriver>(m: &HashMap<String, String>) -> i32 {
     0
 }
 
+fn conv<W: WorldDriver>(m: &HashMap<String, String>) -> i32 {
+    let cases: u32 = m.get("cases").map(|s| s.parse().unwrap()).unwrap_or(1000);
+    let seed: u64 = m.get("seed").map(|s| s.parse().unwrap()).unwrap_or(1);
+    let res = vh::conv::search::<W>(cases, seed);
+    if let Some(out) = m.get("out") {
+        std::fs::write(out, res.stats.to_json()).expect("write stats");
+    }
+    println!("STATS prop=C14 world={} evaluations={} nontrivial={}", W::NAME, res.stats.evaluations, res.stats.nontrivial_hashes.len());
+    if let Some((case, msg)) = res.failure {
+        let path = m.get("fail-out").cloned().unwrap_or_else(|| format!("fail-C14-{}.conv", seed));
+        std::fs::write(&path, format!("# property C14\n# {}\nworld {}\n{}\n", one_line(&msg), W::NAME, case.to_line())).expect("write replay");
+        println!("FAIL prop=C14 sig=conversion-law tags=C14 step=0 replay={} msg={}", path, one_line(&msg));
+        return 1;
+    }
+    0
+}
+
+fn conv_replay<W: WorldDriver>(lines: &[String], path: &str) -> i32 {
+    for l in lines {
+        match vh::conv::ConvCase::from_line(l) {
+            Ok(c) => {
+                if let Err(msg) = vh::conv::check_case::<W>(&c) {
+                    println!("FAIL prop=C14 sig=conversion-law tags=C14 step=0 replay={} msg={}", path, one_line(&msg));
+                    return 1;
+                }
+            }
+            Err(e) => {
+                eprintln!("{}", e);
+                return 3;
+            }
+        }
+    }
+    println!("PASS prop=C14 replay={} cases={}", path, lines.len());
+    0
+}
+
 fn replay<W: WorldDriver>(prop: &str, case: &Case, path: &str, m: &HashMap<String, String>) -> i32 {
     let mut cfg = Cfg::new(intensity(m.get("intensity").or(Some(&"full".to_string()))));
     cfg.max_sims = 3;
@@ -121,6 +157,28 @@ fn main() {
         "hist" => {
             let world = m.get("world").cloned().unwrap_or_else(|| "WMix".to_string());
             dispatch_world(&world, || hist::<vh::worlds::wmix::WMix>(&m), || hist::<vh::worlds::wone::WOne>(&m), || hist::<Wide>(&m)).unwrap_or(3)
+        }
+        "conv" => {
+            let world = m.get("world").cloned().unwrap_or_else(|| "WMix".to_string());
+            dispatch_world(&world, || conv::<vh::worlds::wmix::WMix>(&m), || conv::<vh::worlds::wone::WOne>(&m), || conv::<Wide>(&m)).unwrap_or(3)
+        }
+        "conv-replay" => {
+            let path = pos.first().expect("replay file");
+            let text = std::fs::read_to_string(path).expect("read replay");
+            let mut world = "WMix".to_string();
+            let mut lines = Vec::new();
+            for l in text.lines() {
+                let l = l.split('#').next().unwrap().trim();
+                if l.is_empty() {
+                    continue;
+                }
+                if let Some(w) = l.strip_prefix("world ") {
+                    world = w.trim().to_string();
+                } else {
+                    lines.push(l.to_string());
+                }
+            }
+            dispatch_world(&world, || conv_replay::<vh::worlds::wmix::WMix>(&lines, path), || conv_replay::<vh::worlds::wone::WOne>(&lines, path), || conv_replay::<Wide>(&lines, path)).unwrap_or(3)
         }
         "replay" => {
             let prop = m.get("prop").expect("--prop").clone();
